@@ -224,6 +224,12 @@ func runQuote(w *out.W, tier string) {
 				w.Violation(fmt.Sprintf("q%d-fv", i), class, fmt.Sprintf("mysql formatValues([on %q]) = %q", s, trunc(q, 80)))
 			}
 		}
+		if s != "" && i%7 == 0 {
+			// distinct opening/closing quotes (T-SQL style, no OSS driver): tie only
+			q := builderIdent('[', ']', s)
+			w.Case(fmt.Sprintf("q%d-idq", i), strings.Join([]string{"ident", bits(generic), hx("["), hx("]"), hx(s)}, " "),
+				[]string{fmt.Sprintf("out %s closed=%v", hx(q), quotedToken(false, q))})
+		}
 		if s != "" {
 			for _, qc := range []byte{'`', '"'} {
 				q := builderIdent(qc, qc, s)
